@@ -12,7 +12,7 @@ RULE = (
     "invariant (<= 1e-9) after every update and bounded liveness dt == dt_max from step window+2 on; non-trivial = at least 5 "
     "updates on a mesh with >= 10 sites; distinct = scenario digests"
 )
-LIFECYCLES = {}  # shared object life cycles (scen.add_lifecycles) with their default rates
+LIFECYCLES = {"p_prior": 0.07}  # shared object life cycles (scen.add_lifecycles) with their default rates
 BUDGET = {"quick": {"runs": 300, "chunk": 10}, "thorough": {"runs": 40000, "chunk": 20}}
 COMPONENTS = {"real": ["mesh + MeshOperators", "TDGLSolver.update incl. screening kernel", "dt controller"], "stub": ["wall clock"]}
 ASSUMPTIONS = ["'Exactly stationary' is decided as 'to accumulated rounding' (<= 1e-9): Laplacian row sums are ~1e-14 on irregular meshes, a wrong sign or weight moves psi by O(dt) >= 1e-4 per step."]
@@ -46,6 +46,19 @@ def gen(seed, idx, tier):
         scn["options"]["solve_time"] = scen.r3(scn["options"]["dt_init"] * rnd.randint(60, 300))
         scn["options"]["adaptive"] = True
         scn["options"]["dt_max"] = scen.r3(scn["options"]["dt_init"] * rnd.choice([2.0, 10.0]))
+    elif rnd.random() < 0.2 and not screening:
+        # a very small first step (the library's own error message recommends "a smaller dt_init"):
+        # dt_max / dt_init from 1e5 to 1e8; the step must still grow to dt_max right after the window
+        o = scn["options"]
+        o["adaptive"] = True
+        o["dt_init"] = rnd.choice([1e-9, 1e-8, 1e-8, 1e-7])
+        o["dt_max"] = rnd.choice([0.01, 0.02, 0.05, 0.1])
+        o["adaptive_window"] = rnd.choice([1, 2, 3, 5])
+        o["solve_time"] = scen.r3(o["dt_max"] * rnd.randint(4, 25))
+        if o.get("skip_time"):
+            o["skip_time"] = scen.r3(o["dt_max"] * rnd.randint(1, 3))
+        scn["faults"] = []
+        scn["meta"]["tiny_dt_init"] = True
     return scen.maybe_sibling(rnd, scen.maybe_restored(rnd, scen.maybe_solve_twice(rnd, scn)), 0.15)
 
 
